@@ -21,6 +21,24 @@ THEOREMS = [
     "BeyondVerif.C05.kepler_equation_equivariant",
     "BeyondVerif.C05.hyperbolic_kepler_equation_solution_unique",
     "BeyondVerif.C05.kepler_solves_two_body",
+    "BeyondVerif.C05.deltaT_eq",
+    "BeyondVerif.C05.deltaT_telescope",
+    "BeyondVerif.C05.subDate_inst",
+    "BeyondVerif.C05.subDate_inst_bound",
+    "BeyondVerif.C05.deltaT_eq_instant_diff",
+    "BeyondVerif.C05.kepler_M_advance_dates",
+    "BeyondVerif.C05.kepler_M_advance_dates_us",
+    "BeyondVerif.C05.kepler_M_advance_readings",
+    "BeyondVerif.C05.off_TT_UTC",
+    "BeyondVerif.C05.kepler_M_advance_UTC_to_TT",
+    "BeyondVerif.C05.propagate_label_free",
+    "BeyondVerif.C05.kepler_compose_dates",
+    "BeyondVerif.C05.kepler_inverse_dates",
+    "BeyondVerif.C05.timedelta_is_date",
+    "BeyondVerif.C05.kepler_M_advance_timedelta",
+    "BeyondVerif.C05.kepler_M_advance_timedelta_same_offset",
+    "BeyondVerif.C05.kepler_compose_timedelta",
+    "BeyondVerif.C05.propagateTo_history_independent",
     "BeyondVerif.C05.propagate_history_independent",
     "BeyondVerif.C05.propagate_overwrites_cache",
     "BeyondVerif.C05.kpM2eLoop_exit",
@@ -42,6 +60,9 @@ THEOREMS = [
     "BeyondVerif.C05.j2_critical_no_perigee_drift",
     "BeyondVerif.C05.j2_compose",
     "BeyondVerif.C05.j2_inverse",
+    "BeyondVerif.C05.j2_compose_dates",
+    "BeyondVerif.C05.j2_inverse_dates",
+    "BeyondVerif.C05.j2_step_mod_dates",
     "BeyondVerif.C05.j2_node_rate_eq_sso",
 ]
 LEVEL_TEXT = ("Lean theorems over R about the element update translated from kepler.py, j2.py and Infos.n on every run: a, e, i, node, perigee constant and "
@@ -49,7 +70,13 @@ LEVEL_TEXT = ("Lean theorems over R about the element update translated from kep
               "coordinates of the propagated state satisfy Newton's equation r'' = -mu r/|r|^3 (HasDerivAt, all t); "
               "J2 keeps a, e, i, is linear in dt with exactly the first-order secular rates (no node drift at cos i = 0, no perigee drift at 5 cos^2 i = 1, "
               "node rate = Earth's mean motion for the inclination returned by leo.sso), composes modulo 2 pi. Cartesian-level composition / inverse / "
-              "periodicity are proved from the form round trip as explicit hypotheses (C01). The propagator object re-reads the orbit on every call (history independence); "
+              "periodicity are proved from the form round trip as explicit hypotheses (C01). "
+              "Dates: delta_t and the target date are translated from the head of Kepler.propagate / J2.propagate into the C03 date model (instant on TAI + own scale); for an epoch and "
+              "a target in ANY pair of the six scales delta_t is the difference of the two instants (exactly for whole-microsecond dates, within 1 us otherwise), M advances by n times it, "
+              "J2 drifts at the secular rates times it, the result carries the requested date, relabelling either date in another scale changes nothing, composition / inverse through "
+              "dates in any three scales are exact; a timedelta argument is the date epoch + timedelta and advances M by n times the timedelta in TAI, TT, GPS (also across leap seconds, "
+              "every Earth-orientation environment) and in any scale when the offset to TAI does not change (UTC when no leap second intervenes); UTC -> TT spelled out "
+              "(readings minus 32.184 s minus TAI-UTC). The propagator object re-reads the orbit (elements and epoch) on every call (history independence); "
               "the Newton loop of Form.M2E (translated start values / update / tolerance, loop shape checked) is left on convergence only, so a returned anomaly solves Kepler's equation "
               "for the advanced mean anomaly within 2e-8 (1+e); for the anomaly reduced to [-pi, pi) (as the code does since b41fd8b) with |M'| <= pi - e the loop provably exits (monotone Newton descent). Differential correspondence of the whole chain (update, M2E, "
               "eccentric -> true -> cartesian, all in Lean) against Orbit.propagate from every form, on single calls and on call histories with in-place modifications.")
@@ -60,15 +87,26 @@ TECHNIQUE = "Lean 4 proof (ring / field identities, floor arithmetic) over formu
 TRUSTED = [
     "harness/py2lean.py: translates Infos.n, Body.mu, the body of Kepler.propagate and J2.propagate and the sso inclination formula into Generated/Propag{F,R}.lean on every run; "
     "constants G, Earth mass/radius/J2 are read from the live beyond.constants module",
+    "harness/props/C05.py DateTr / date_head: typed translation of the date arithmetic at the head of both propagate() methods (Date - Date, Date + timedelta, total_seconds) into the "
+    "C03 date model; anything else (own-scale clock fields d, s, datetime, mjd) is refused and the run reported as broken; shape checks: `date` rebound only in the timedelta branch, "
+    "`new.date = date` once, Orbit.propagate hands its argument on unchanged",
+    "the date model (Model/Date.lean, DateCfg: scale graph, _scale_* methods, IERS tables, TDB formula regenerated by C03.extract, which C05.extract calls) is C03's; here it is tied to "
+    "the propagators by the dated correspondence cases (model span / stamped scale vs `result.date - epoch`, cartesian state) in three Earth-orientation environments",
+    "oracle: the instants of the dates handed in come from the harness's own offsets (32.184 s, 19 s, tai-utc.dat / finals read by C03.tables, documented TDB formula), not from the library",
     "lean/templates/Propag.tpl (hand-written glue: which element is updated, the modulo-2pi wrap of J2, the fuel-bounded Newton loop whose shape the extractor checks against "
     "the source, the propagator object and its unconditional setter), tied by the correspondence run (single calls, slow-M2E inputs, histories)",
     "harness mirror of the M2E loop (m2e_iters) is used only to SELECT inputs on which the loop runs long, never as an expected value; a 1 s SIGALRM watchdog decides 'does not return'",
     "numpy / libm double arithmetic vs R: tolerance 1e-9 (1 + n|dt|) relative",
 ]
-ASSUMPTIONS = ["cartesian-level theorems take the keplerian_mean <-> cartesian round trip (up to 2 pi k on M for e < 1) and the 2 pi-periodicity of mean -> cartesian as hypotheses hRT / hPer (C01)",
+ASSUMPTIONS = ["timedelta arguments: `advances M by n times the timedelta` is stated (and tested) for epochs in TAI, TT, GPS and for UTC when no leap second lies in the span; "
+               "for UT1 / TDB epochs and UTC spans across a leap second a timedelta is propagated as the date `epoch + timedelta` (consistency with that date is tested, not n*timedelta)",
+               "dates within 2 minutes of a leap second and UT1 readings within 5 s of midnight (C03's open finding ut1-step-at-utc-midnight) are not generated; spans may cross leap seconds",
+               "cartesian-level theorems take the keplerian_mean <-> cartesian round trip (up to 2 pi k on M for e < 1) and the 2 pi-periodicity of mean -> cartesian as hypotheses hRT / hPer (C01)",
                "theorems are over R; the implementation computes in IEEE doubles",
                "frames are only labels here: the propagators never change the frame"]
-NOT_COVERED = ["two-body solution: proved for bound orbits in the orbital plane (kepler_solves_two_body: perifocal coordinates of the propagated state satisfy r'' = -mu r/|r|^3 with the same mu); "
+NOT_COVERED = ["the date arithmetic itself (Date construction, offsets, `-`, `+`) is C03's subject: here its model is used, and tied to the propagators by the dated cases only; "
+               "`datetime` arguments are refused by the library (TypeError; tallied by the oracle), numpy datetime64 / float arguments likewise",
+               "two-body solution: proved for bound orbits in the orbital plane (kepler_solves_two_body: perifocal coordinates of the propagated state satisfy r'' = -mu r/|r|^3 with the same mu); "
                "the hyperbolic counterpart, the constant rotation of the orbital plane into the frame, and that the library's mean -> cartesian conversion computes these coordinates (C01) are not formalised; "
                "agreement with the independent universal-variable solution (elliptic and hyperbolic, both time directions) is oracle only",
                "J2 on hyperbolic orbits: the code returns NaN silently (sqrt(1 - e^2)); secular J2 theory is defined for bound orbits only, the model reproduces the NaN, the theorems assume e < 1 where sqrt matters"]
@@ -79,9 +117,15 @@ OPEN = ["termination of Form.M2E (elliptic branch, code after fix b41fd8b) is pr
 RULE = ("correspondence: random orbits (e log/uniform in [1e-4,0.95] and [1.01,10], perigee radius 6.6e6..5e7 m, every form the conic admits, dt in +-30 d quantised to ms) through "
         "Orbit.propagate (Kepler, J2) vs real mean->cartesian applied to the Lean model's elements on the real cartesian->mean elements; non-trivial = dt != 0; distinct = distinct request line. "
         "plus the Kepler inputs with the most Newton passes among 2e4 (2e5) domain candidates, plus call histories (propagate / modify in place: element, velocity scaling, form, date / propagate again, "
-        "timedelta and absolute dates) threaded through the model's propagator object; the model's cartesian state comes from the Lean chain with fuel 1e4. "
+        "epoch shifted or RELABELLED in another scale; timedelta, date in the epoch's scale, date in a drawn scale) threaded through the model's propagator object (driver command histd: "
+        "the model is given scale + clock reading of epoch and target and computes the span itself), one third of them in a drawn Earth-orientation environment with the epoch in a drawn scale; "
+        "single dated propagations: propagator x {no EOP, constant mocked record, real tests/data/pole database} x scale of the epoch x scale of the target (all 2 x 3 x 36, 3 (40) sweeps), "
+        "every seventh a timedelta, a third of the real-database epochs placed so that the span crosses a leap second; the model's cartesian state comes from the Lean chain with fuel 1e4. "
         "oracle: element constancy, M advance, composition, inverse, periodicity, universal-variable two-body solution (1e-5), J2 secular rates from the textbook formula, polar / critical / sso, "
-        "Kepler-equation residual of Form.M2E over the domain, history = fresh orbit, every call under a watchdog (no return = failure), pinned regression inputs")
+        "Kepler-equation residual of Form.M2E over the domain, history = fresh orbit, every call under a watchdog (no return = failure), pinned regression inputs; "
+        "every Kepler / J2 clause again with the dates handed in as Date objects (gen_dated: environment x epoch scale x first target scale through all 3 x 36 combinations, 2 (12) sweeps per "
+        "propagator; the composition legs, the way back and the period in further drawn scales or as timedelta; expected values from the elapsed time between the instants computed by the harness; "
+        "the result must carry the requested date and scale); iter(dates=mixed scales), iter(start in another scale, stop, step), datetime arguments (api_case)")
 
 REPO = core.REPO
 KEPLER_PY = os.path.join(REPO, "beyond", "propagators", "kepler.py")
@@ -201,9 +245,117 @@ def to_cart_chain(tree):
     return "\n".join(parts)
 
 
+# ---------------------------------------------------------------- the date arithmetic at the head of propagate()
+
+ORBIT_PY = os.path.join(REPO, "beyond", "orbits", "orbit.py")
+TD_TEST = "type(date) is timedelta"
+
+
+class DateTr:
+    """Typed translation of the date arithmetic of `Kepler.propagate` / `J2.propagate` into the C03 date model
+    (Model/Date.lean).  Types: 'date' (a `Date`: instant on the reference scale + own scale label), 'td' (a `timedelta`, whole
+    microseconds), 'sec' (float seconds).  Only operations whose meaning is a function of the INSTANTS are accepted:
+    `Date - Date` (`Date.__sub__`: difference of the reference-scale datetimes), `Date + timedelta`, sums / differences /
+    negation of timedeltas and of seconds, `timedelta.total_seconds()`.  Anything else — in particular the own-scale clock
+    fields `date.d`, `date.s`, `date.datetime`, `date.mjd`, `date.jd` — is refused: the run is reported as broken and the
+    oracle is widened."""
+
+    def __init__(self, names):
+        self.names = dict(names)      # python source text -> (lean text, type)
+
+    def expr(self, e):
+        key = ast.unparse(e)
+        if key in self.names:
+            return self.names[key]
+        if isinstance(e, ast.BinOp) and isinstance(e.op, (ast.Sub, ast.Add)):
+            (l, tl), (r, tr) = self.expr(e.left), self.expr(e.right)
+            sub = isinstance(e.op, ast.Sub)
+            if sub and (tl, tr) == ("date", "date"):
+                return f"(Date.subDate {l} {r})", "td"
+            if (tl, tr) == ("td", "td"):
+                return f"({l} {'-' if sub else '+'} {r})", "td"
+            if (tl, tr) == ("sec", "sec"):
+                return f"({l} {'-' if sub else '+'} {r})", "sec"
+            if (tl, tr) == ("date", "td"):
+                return (f"(Date.subTd cfg env {l} {r})" if sub else f"(Date.add cfg env {l} {r})"), "xdate"
+            raise py2lean.Untranslatable(f"date arithmetic `{key}`: {tl} {'-' if sub else '+'} {tr} is not a function of the instants")
+        if isinstance(e, ast.UnaryOp) and isinstance(e.op, ast.USub):
+            v, t = self.expr(e.operand)
+            if t in ("td", "sec"):
+                return f"(-{v})", t
+        if isinstance(e, ast.Call) and isinstance(e.func, ast.Attribute) and e.func.attr == "total_seconds" and not e.args and not e.keywords:
+            v, t = self.expr(e.func.value)
+            if t == "td":
+                return f"(tdTotalSeconds {v})", "sec"
+        raise py2lean.Untranslatable(f"date arithmetic `{key}` is not understood (the span must come from the Date difference, e.g. "
+                                     "`(date - self.orbit.date).total_seconds()`: the clock fields of a Date are readings in its OWN scale)")
+
+
+def _stores(fn, name):
+    return [n for n in ast.walk(fn) if isinstance(n, ast.Name) and n.id == name and isinstance(n.ctx, ast.Store)]
+
+
+def date_head(path, qualname, prefix):
+    """`delta_t` and the target date of `<qualname>` as Lean definitions `<prefix>DeltaT`, `<prefix>TdTarget`; checks that
+    * the argument `date` is rebound only by `if type(date) is timedelta: date = <Date + timedelta>`,
+    * `delta_t` is assigned once, from date arithmetic that `DateTr` understands,
+    * the result is stamped with the requested date (`new.date = date`, once)."""
+    fn = py2lean.find_function(ast.parse(open(path).read()), qualname)
+    if [a.arg for a in fn.args.args] != ["self", "date"] or fn.args.vararg or fn.args.kwarg or fn.args.kwonlyargs:
+        raise py2lean.Untranslatable(f"{qualname}: signature is not (self, date)")
+    stmts = [st for st in fn.body if not (isinstance(st, ast.Expr) and isinstance(st.value, ast.Constant))]
+    td_if = [st for st in stmts if isinstance(st, ast.If) and ast.unparse(st.test) == TD_TEST]
+    if len(td_if) != 1 or stmts[0] is not td_if[0] or td_if[0].orelse or len(td_if[0].body) != 1:
+        raise py2lean.Untranslatable(f"{qualname}: does not start with `if {TD_TEST}: date = …`")
+    asg = td_if[0].body[0]
+    if not (isinstance(asg, ast.Assign) and len(asg.targets) == 1 and isinstance(asg.targets[0], ast.Name) and asg.targets[0].id == "date"):
+        raise py2lean.Untranslatable(f"{qualname}: the timedelta branch does not rebind `date`")
+    target, t = DateTr({"self.orbit.date": ("epoch", "date"), "date": ("td", "td")}).expr(asg.value)
+    if t != "xdate":
+        raise py2lean.Untranslatable(f"{qualname}: the timedelta branch does not compute a Date")
+    if len(_stores(fn, "date")) != 1:
+        raise py2lean.Untranslatable(f"{qualname}: the argument `date` is rebound outside the timedelta branch")
+    dts = [st for st in stmts if isinstance(st, ast.Assign) and len(st.targets) == 1 and isinstance(st.targets[0], ast.Name) and st.targets[0].id == "delta_t"]
+    if len(dts) != 1 or len(_stores(fn, "delta_t")) != 1:
+        raise py2lean.Untranslatable(f"{qualname}: `delta_t` is not assigned exactly once, at the top level")
+    span, t = DateTr({"self.orbit.date": ("epoch", "date"), "date": ("date", "date")}).expr(dts[0].value)
+    if t != "sec":
+        raise py2lean.Untranslatable(f"{qualname}: `delta_t` is not a number of seconds")
+    stamps = [n for n in ast.walk(fn) if isinstance(n, (ast.Assign, ast.AugAssign, ast.AnnAssign))
+              for tg in (n.targets if isinstance(n, ast.Assign) else [n.target]) if isinstance(tg, ast.Attribute) and tg.attr == "date"]
+    if len(stamps) != 1 or not isinstance(stamps[0], ast.Assign) or ast.unparse(stamps[0].value) != "date" or ast.unparse(stamps[0].targets[0]) != "new.date":
+        raise py2lean.Untranslatable(f"{qualname}: the result is not stamped with the requested date (`new.date = date`, once)")
+    return (f"/-- `{qualname}`: `delta_t = {ast.unparse(dts[0].value)}` (dates of the C03 model: any pair of scales) -/\n"
+            f"def {prefix}DeltaT (date epoch : Date.Date) : R :=\n  {span}\n\n"
+            f"/-- `{qualname}`: `if {TD_TEST}: date = {ast.unparse(asg.value)}` (the timedelta in whole µs) -/\n"
+            f"def {prefix}TdTarget (cfg : Date.Cfg) (env : Date.Env) (epoch : Date.Date) (td : Int) : Except Date.Err Date.Date :=\n  {target}\n")
+
+
+def orbit_propagate_shape():
+    """`Orbit.propagate(date)` hands its argument to the propagator unchanged"""
+    fn = py2lean.find_function(ast.parse(open(ORBIT_PY).read()), "Orbit.propagate")
+    stmts = [st for st in fn.body if not (isinstance(st, ast.Expr) and isinstance(st.value, ast.Constant))]
+    if [a.arg for a in fn.args.args] != ["self", "date"] or _stores(fn, "date") or not stmts or ast.unparse(stmts[-1]) != "return self.propagator.propagate(date)":
+        raise py2lean.Untranslatable("Orbit.propagate no longer ends with `return self.propagator.propagate(date)` on the unmodified argument")
+
+
+def write_generated(name, body, src, plain_imports):
+    """py2lean.instantiate with number-type independent imports (verbatim, no F / R suffix)"""
+    changed = []
+    imp = "".join(f"import BeyondVerif.{m}\n" for m in plain_imports)
+    for suffix, head, num in (("F", py2lean.HEADER_F, "import BeyondVerif.NumFloat\n"), ("R", py2lean.HEADER_R, "import BeyondVerif.NumReal\n")):
+        text = head.format(src=src).replace(num, num + imp) + body + f"\nend BeyondVerif.{suffix}\n"
+        if core.write_if_changed(os.path.join(core.LEAN, "BeyondVerif", "Generated", name + suffix + ".lean"), text):
+            changed.append(f"Generated/{name}{suffix}.lean")
+    return changed
+
+
 def extract(ctx):
     from beyond import constants as K
-    ch0 = []
+    from harness.props import C03
+    # the date model (scale graph, `_scale_*` methods, IERS tables, TDB formula) is C03's: regenerated here too, the span of a
+    # propagation is computed by it
+    ch0 = list(C03.extract(ctx) or [])
     consts = {"self.orbit.infos.n": "(meanMotion mu a)", "self.orbit[5]": "M", "Earth.r": "earthR", "Earth.J2": "earthJ2", "Earth.mu": "earthMu"}
     body = "/-- constants of beyond/constants.py (live module values) -/\n"
     body += f"def gravG : R := {_lit(K.G)}\n"
@@ -225,10 +377,201 @@ def extract(ctx):
     body += "/-- leo.sso(a=a, e=e): the cosine of the returned inclination -/\n"
     body += py2lean.translate_return(LEO_PY, "sso", ["a", "e"], "ssoCosI", consts={"ω_e": "ssoOmegaE", "cst": "ssoCst"}, select=_sso_select) + "\n"
     body += to_cart_chain(ast.parse(open(FORMS_PY).read())) + "\n"
-    ch = py2lean.instantiate(core.LEAN, "Propag", body, "beyond/propagators/kepler.py, j2.py, orbits/statevector.py (Infos.n), constants.py, utils/leo.py (sso)")
+    # delta_t and the target date, from the head of both propagate() methods
+    orbit_propagate_shape()
+    body += "/-- `timedelta.total_seconds()` (the timedelta in whole microseconds) -/\ndef tdTotalSeconds (us : Int) : R := ofInt us / 1000000\n\n"
+    body += date_head(KEPLER_PY, "Kepler.propagate", "kepler") + "\n"
+    body += date_head(J2_PY, "J2.propagate", "j2") + "\n"
+    ch = write_generated("Propag", body, "beyond/propagators/kepler.py, j2.py, orbits/statevector.py (Infos.n), constants.py, utils/leo.py (sso)",
+                         ["Model.Date"])
     ch += instantiate.main()
     return ch0 + ch
 
+
+
+# ---------------------------------------------------------------- dates: scales, Earth-orientation environments, instants
+
+SCALES = ["UTC", "TAI", "TT", "GPS", "UT1", "TDB"]
+UNIFORM = ("UTC", "TAI", "TT", "GPS")      # whole-microsecond offsets between them
+CONST = ("TAI", "TT", "GPS")               # constant offset to the reference scale TAI
+ENVS = ["zero", "mock", "real"]
+DAY_US = 86400 * 10**6
+MOCK_TAI_UTC_US = 36 * 10**6
+MOCK_UT1_UTC_TICKS = 175602                # 0.0175602 s
+EPOCH0_US = None                           # clock reading of the legacy epoch 2020-05-24T03:07:11, set lazily
+
+
+def D3():
+    from harness.props import C03
+    return C03
+
+
+class _ZeroDb:
+    """no Earth-orientation data at all: every lookup misses (missing-data policy `pass` gives zeros)"""
+
+    def __getitem__(self, mjd):
+        raise KeyError(mjd)
+
+
+class _MockDb:
+    """the same record for every date (the values of the library's own test fixture)"""
+
+    def __getitem__(self, mjd):
+        from beyond.dates.eop import Eop
+        return Eop(x=-0.00951054166666622, y=0.31093590624999734, dpsi=-94.19544791666682, deps=-10.295645833333051, dy=-0.10067361111115315,
+                   dx=-0.06829513888889051, lod=1.6242802083331438, ut1_utc=MOCK_UT1_UTC_TICKS / 1e7, tai_utc=MOCK_TAI_UTC_US / 1e6)
+
+
+_env_state = {"mode": None}
+
+
+def set_env(mode):
+    """select the Earth-orientation environment through the public configuration (`eop.dbname`, `eop.folder`, plug-in databases
+    registered with `EopDb.register`)"""
+    import logging
+    from beyond.config import config
+    from beyond.dates.eop import EopDb
+    if _env_state["mode"] is None:
+        EopDb._load_entry_points()
+        for name, klass in (("c05zero", _ZeroDb), ("c05mock", _MockDb)):
+            if name not in EopDb._dbs:
+                EopDb.register(klass, name)
+        log = logging.getLogger("beyond.dates.eop")
+        if not any(isinstance(h, logging.NullHandler) for h in log.handlers):
+            log.addHandler(logging.NullHandler())
+        log.propagate = False
+    if _env_state["mode"] == mode:
+        return
+    config.update({"eop": {"folder": D3().pole_dir(), "type": "all", "missing_policy": "pass",
+                           "dbname": {"zero": "c05zero", "mock": "c05mock", "real": EopDb.DEFAULT_DBNAME}[mode]}})
+    if mode == "real" and isinstance(EopDb._dbs.get(EopDb.DEFAULT_DBNAME), Exception):
+        from beyond.dates import eop
+        EopDb._dbs[EopDb.DEFAULT_DBNAME] = eop.SimpleEopDatabase      # drop a cached failed instantiation
+    _env_state["mode"] = mode
+
+
+def warm_envs():
+    """load the real database and the harness's own tables once, outside every per-call watchdog; leave the ambient environment"""
+    from beyond.dates.eop import EopDb
+    set_env("real")
+    EopDb.db()
+    D3().tables()
+    epoch0_us()
+    set_env("zero")
+
+
+class eop_env:
+    """run a block in one Earth-orientation environment; the ambient environment of this module is `zero`"""
+
+    def __init__(self, mode):
+        self.mode = mode
+
+    def __enter__(self):
+        set_env(self.mode)
+
+    def __exit__(self, *a):
+        set_env("zero")
+        return False
+
+
+def env_token(env):
+    return f"mock:{MOCK_TAI_UTC_US * 10}:{MOCK_UT1_UTC_TICKS}" if env == "mock" else env
+
+
+def epoch0_us():
+    global EPOCH0_US
+    if EPOCH0_US is None:
+        import datetime as _dt
+        EPOCH0_US = D3().us_of(_dt.datetime(2020, 5, 24, 3, 7, 11))
+    return EPOCH0_US
+
+
+def minus_tai_us(scale, us, env):
+    """clock(scale) - clock(TAI), microseconds (a float for UT1 / TDB), for the clock reading `us` of that scale — from the defining
+    constants (32.184 s, 19 s), the IERS files read by the harness's own column parser (C03.tables) and the documented TDB formula;
+    never from the library"""
+    if scale == "TAI":
+        return 0
+    if scale == "TT":
+        return 32184000
+    if scale == "GPS":
+        return -19000000
+    if scale == "TDB":
+        return 32184000 + D3().tdb_minus_tt_ref(us / DAY_US) * 1e6
+    tai_utc = ut1_utc = 0
+    if env == "mock":
+        tai_utc, ut1_utc = MOCK_TAI_UTC_US, MOCK_UT1_UTC_TICKS / 10
+    elif env == "real":
+        leap, ut1, first, last = D3().tables()
+        day = us // DAY_US
+        if day in ut1:          # a missing day gives an all-zero record (policy `pass`)
+            tai_utc, ut1_utc = (D3().leap_at(day) or 0) // 10, ut1[day] / 10
+    return -tai_utc + (ut1_utc if scale == "UT1" else 0)
+
+
+def inst_us(scale, us, env):
+    """the instant (microseconds on TAI) of the clock reading `us` in `scale`"""
+    return us - minus_tai_us(scale, us, env)
+
+
+def reading_at(scale, inst, env):
+    """whole-microsecond clock reading in `scale` of the instant `inst` (microseconds on TAI)"""
+    r = inst
+    for _ in range(3):
+        r = inst + minus_tai_us(scale, round(r), env)
+    return round(r)
+
+
+def date_ok(scale, us, env):
+    """a clock reading the property speaks about: outside the 2-minute windows around leap seconds (where UTC-like readings are
+    ambiguous) and, for UT1 with real data, not within seconds of midnight (UT1-UTC is applied as a step function of the day: C03's
+    open finding ut1-step-at-utc-midnight); with real data inside the IERS tables"""
+    if env != "real":
+        return True
+    _, _, first, last = D3().tables()
+    day = us // DAY_US
+    if not (first + 2 <= day <= last - 2):
+        return False
+    if D3().in_leap_window(scale, us):
+        return False
+    if scale == "UT1" and min(us % DAY_US, DAY_US - us % DAY_US) < 5 * 10**6:
+        return False
+    return True
+
+
+def leap_between(env, i1, i2):
+    """a leap second lies between two instants (microseconds on TAI), with a 3-minute margin"""
+    if env != "real":
+        return False
+    lo, hi = min(i1, i2), max(i1, i2)
+    return any(lo - 240 * 10**6 <= ld * DAY_US <= hi + 240 * 10**6 for ld in D3().leap_days())
+
+
+def mkdate(scale, us):
+    return D3().mkdate(us, scale)
+
+
+def date_reading(d):
+    """(scale name, clock reading in microseconds) of a real Date, through its public attributes"""
+    return d.scale.name, D3().us_of(d.datetime)
+
+
+def gen_epoch(rng, scale, env, dt=0.0):
+    """clock reading of an epoch in `scale`; with real data one third of the epochs are placed so that a span of `dt` seconds
+    crosses a leap second"""
+    while True:
+        if env == "real":
+            if rng.random() < 0.35 and abs(dt) > 400:
+                ld = rng.choice([d for d in D3().leap_days() if D3().tables()[2] + 40 <= d <= D3().tables()[3] - 40])
+                x = rng.uniform(130, abs(dt) - 130) if abs(dt) > 270 else 135.0
+                us = ld * DAY_US + round((-x if dt > 0 else x) * 1e6)
+            else:
+                _, _, first, last = D3().tables()
+                us = rng.randint(first + 40, last - 40) * DAY_US + rng.randrange(DAY_US)
+        else:
+            us = epoch0_us() + rng.randint(-3000, 600) * DAY_US + rng.randrange(DAY_US)
+        if date_ok(scale, us, env):
+            return us
 
 # ---------------------------------------------------------------- generators
 
@@ -269,11 +612,12 @@ def gen_dt(rng):
     return rng.choice([30 * DAY, -30 * DAY, 0.0, 0.001, -0.001])
 
 
-def make(elts, form, frame, propagator):
-    """Orbit given in `form` (coordinates obtained from the mean elements by the library's own conversion)"""
+def make(elts, form, frame, propagator, epoch=None):
+    """Orbit given in `form` (coordinates obtained from the mean elements by the library's own conversion); `epoch`: a Date in
+    any scale (default: 2020-05-24T03:07:11 UTC)"""
     from beyond.orbits import Orbit, StateVector
     from beyond.dates import Date
-    d0 = Date(2020, 5, 24, 3, 7, 11)
+    d0 = Date(2020, 5, 24, 3, 7, 11) if epoch is None else epoch
     sv = StateVector(elts, d0, "keplerian_mean", frame)
     coords = [float(v) for v in sv.copy(form=form)]
     return Orbit(coords, d0, form, frame, propagator), d0
@@ -357,8 +701,11 @@ def slow_m2e_inputs(rng, ncand, ntop):
     return out
 
 
-def gen_history_input(rng, prop):
-    """one Orbit object, one propagator object: propagations interleaved with in-place modifications of the orbit"""
+def gen_history_input(rng, prop, k=0):
+    """one Orbit object, one propagator object: propagations (timedelta, date in the epoch's scale, date in another scale)
+    interleaved with in-place modifications of the orbit (element, velocity, form, epoch shifted, epoch RELABELLED in another scale);
+    two thirds of the histories live in the legacy setting (UTC epoch, no Earth-orientation data), one third in a drawn environment
+    with the epoch in a drawn scale"""
     conic = "ell" if (prop == "J2" or rng.random() < 0.7) else "hyp"
     elts = gen_elts(rng, conic)
     if conic == "hyp":
@@ -366,9 +713,17 @@ def gen_history_input(rng, prop):
     else:
         elts[1] = min(elts[1], 0.9)
     forms = ELL_FORMS if conic == "ell" else HYP_FORMS
-    steps = [("P", q(rng.uniform(-3, 3) * DAY))]
+    dated = k % 3 == 1
+    pkinds = ["P", "P", "Pabs", "Pdate", "Pdate"] if dated else ["P", "P", "Pabs", "Pdate"]
+    mkinds = ["elem", "elem", "scale_v", "form", "date", "none", "relabel"] + (["relabel"] if dated else [])
+
+    def pstep():
+        kind = rng.choice(pkinds)
+        dt = q(rng.uniform(-3, 3) * DAY) if rng.random() < 0.8 else 0.0
+        return (kind, dt, rng.choice(SCALES)) if kind == "Pdate" else (kind, dt)
+    steps = [pstep()]
     for _ in range(rng.choice([1, 1, 2, 3])):
-        kind = rng.choice(["elem", "elem", "scale_v", "form", "date", "none"])
+        kind = rng.choice(mkinds)
         if kind == "elem":
             steps.append(("elem", rng.randrange(6), 1 + rng.choice([-1, 1]) * rng.uniform(1e-3, 3e-3)))
         elif kind == "scale_v":
@@ -377,31 +732,75 @@ def gen_history_input(rng, prop):
             steps.append(("form", rng.choice(forms)))
         elif kind == "date":
             steps.append(("date", q(rng.uniform(-1, 1) * DAY)))
-        steps.append((rng.choice(["P", "P", "Pabs"]), q(rng.uniform(-3, 3) * DAY) if rng.random() < 0.8 else 0.0))
-    return {"propagator": prop, "form": rng.choice(forms), "frame": rng.choice(FRAMES), "mean_elements": elts, "steps": steps}
+        elif kind == "relabel":
+            steps.append(("relabel", rng.choice(SCALES)))
+        steps.append(pstep())
+    inp = {"propagator": prop, "form": rng.choice(forms), "frame": rng.choice(FRAMES), "mean_elements": elts, "steps": steps}
+    if dated:
+        env = rng.choice(ENVS)
+        sE = rng.choice(SCALES)
+        inp.update(env=env, epoch=[sE, gen_epoch(rng, sE, env, rng.choice([-2, 2]) * DAY)])
+    return inp
+
+
+
+def gen_single_dated(rng, k):
+    """one propagation with the dates handed in as `Date`s (a one-step history): propagator x environment x scale of the epoch x
+    scale of the target run through all 2 x 3 x 6 x 6 combinations with `k`; every seventh target is a timedelta"""
+    prop = "Kepler" if k % 2 == 0 else "J2"
+    env = ENVS[(k // 2) % 3]
+    pair = (k // 6) % 36
+    sE, sT = SCALES[pair // 6], SCALES[pair % 6]
+    conic = "ell" if (prop == "J2" or rng.random() < 0.6) else "hyp"
+    elts = gen_elts(rng, conic)
+    if conic == "hyp":
+        elts[1] = max(elts[1], 1.02)
+    dt = gen_dt(rng)
+    step = ("P", dt) if k % 7 == 6 else ("Pdate", dt, sT)
+    return {"propagator": prop, "form": rng.choice(ELL_FORMS if conic == "ell" else HYP_FORMS), "frame": rng.choice(FRAMES), "mean_elements": elts,
+            "steps": [step], "env": env, "epoch": [sE, gen_epoch(rng, sE, env, dt)]}
 
 
 def run_history(inp):
     """execute a history on the real API.  For every propagation: the result, the result of a FRESH orbit (new Orbit object,
-    new propagator object) built from the coordinates the orbit has at that moment, the mean elements of that state
-    (computed on a copy, the propagator is not touched) and the interval the code computes."""
+    new propagator object) built from the coordinates and the epoch the orbit has at that moment, the mean elements of that
+    state (computed on a copy, the propagator is not touched), the epoch (scale, clock reading) and the argument."""
     from beyond.orbits import Orbit
     from beyond.dates import timedelta
     prop = inp["propagator"]
-    orb, d0 = make(inp["mean_elements"], inp["form"], inp["frame"], prop)
+    H = Handing(inp)
+    env = H.env
+    orb, d0 = make(inp["mean_elements"], inp["form"], inp["frame"], prop, H.epoch_date())
     recs = []
     changed = True
     for st in inp["steps"]:
-        if st[0] in ("P", "Pabs"):
+        if st[0] in ("P", "Pabs", "Pdate"):
             dt = st[1]
-            arg = timedelta(seconds=dt) if st[0] == "P" else orb.date + timedelta(seconds=dt)
+            sc, us = date_reading(orb.date)
+            inst = inst_us(sc, us, env)
+            if st[0] == "P":
+                arg, target = timedelta(seconds=dt), ["T", round(dt * 1e6)]
+                if not date_ok(sc, us + round(dt * 1e6), env):
+                    continue
+            else:
+                # a Date: in the epoch's own scale (`orb.date + timedelta`, as before), or the instant `dt` later in a drawn scale
+                if st[0] == "Pabs":
+                    arg = orb.date + timedelta(seconds=dt)
+                else:
+                    how = st[2] if date_ok(st[2], reading_at(st[2], inst + round(dt * 1e6), env), env) else "TAI"
+                    arg = mkdate(how, reading_at(how, inst + round(dt * 1e6), env))
+                if not date_ok(*date_reading(arg), env):
+                    continue
+                target = ["D"] + list(date_reading(arg))
             snap = ([float(v) for v in orb], orb.date, orb.form.name)
             x = [float(v) for v in Orbit(snap[0], snap[1], snap[2], inp["frame"], prop).copy(form="keplerian_mean")]
             fresh_orb = Orbit(snap[0], snap[1], snap[2], inp["frame"], prop)
             fresh = fresh_orb.propagate(arg)
             res = orb.propagate(arg)
-            recs.append({"impl": [float(v) for v in res], "fresh": [float(v) for v in fresh], "mean": x, "dt": dt,
-                         "date_ok": res.date == snap[1] + timedelta(seconds=dt), "after_change": changed})
+            want = arg if st[0] != "P" else snap[1] + timedelta(seconds=dt)
+            recs.append({"impl": [float(v) for v in res], "fresh": [float(v) for v in fresh], "mean": x, "dt": dt, "epoch": [sc, us], "target": target,
+                         "date_ok": res.date == want,
+                         "span_us": D3().td_us(res.date - snap[1]), "stamp": list(date_reading(res.date)), "after_change": changed})
             changed = False
         elif st[0] == "elem":
             orb[st[1]] = float(orb[st[1]]) * st[2]
@@ -416,8 +815,17 @@ def run_history(inp):
             orb.form = st[1]
             changed = True
         elif st[0] == "date":
-            orb.date = orb.date + timedelta(seconds=st[1])
-            changed = True
+            new = orb.date + timedelta(seconds=st[1])
+            if date_ok(*date_reading(new), env):
+                orb.date = new
+                changed = True
+        elif st[0] == "relabel":
+            # the same instant, labelled in another scale (clock reading from the harness's own offsets)
+            sc, us = date_reading(orb.date)
+            r = reading_at(st[1], inst_us(sc, us, env), env)
+            if date_ok(st[1], r, env):
+                orb.date = mkdate(st[1], r)
+                changed = True
     return recs
 
 
@@ -442,6 +850,7 @@ def correspondence(ctx):
     from beyond import constants as K
     out = Outcome()
     rng = ctx.rng
+    warm_envs()
     reqs, meta = [], []
     # constants as regenerated
     reqs.append("c05const")
@@ -492,25 +901,31 @@ def correspondence(ctx):
             out.tally("m2e-passes=" + ("<=20" if passes <= 20 else "21-50" if passes <= 50 else "51-100" if passes <= 100 else ">100"))
         if abs(dt_code - dt) > 1e-9:
             out.fail("date-difference", "(date - orbit.date).total_seconds() differs from the requested interval", {"dt": dt}, observed=dt_code, expected=dt)
-    # histories on one Orbit object / one propagator object
-    for k in range(ctx.n(250, 4000)):
-        prop = "Kepler" if k % 3 != 2 else "J2"
-        inp = gen_history_input(rng, prop)
+    # histories on one Orbit object / one propagator object, and single propagations with the dates handed in as `Date`s
+    # (epoch and target in every pair of scales, every Earth-orientation environment): the model computes the span from the dates
+    hists = [(gen_history_input(rng, "Kepler" if k % 3 != 2 else "J2", k), "history") for k in range(ctx.n(250, 4000))]
+    hists += [(gen_single_dated(rng, k), "dated") for k in range(216 * ctx.n(3, 40))]
+    for inp, cls in hists:
+        prop, env = inp["propagator"], inp.get("env", "zero")
         try:
-            with _quiet(), time_limit(6.0):
+            with _quiet(), time_limit(6.0), eop_env(env):
                 recs = run_history(inp)
+                orb, _ = make(inp["mean_elements"], inp["form"], inp["frame"], prop, Handing(inp).epoch_date())
         except NoReturn:
             out.tally("history=no-return (skipped)")
             continue
-        orb, _ = make(inp["mean_elements"], inp["form"], inp["frame"], prop)
         mu = float(orb.frame.center.body.mu)
-        toks = ["hist", prop.lower(), f2b(mu)]
+        toks = ["histd", prop.lower(), env_token(env), f2b(mu)]
         for r in recs:
-            toks += ["S"] + [f2b(v) for v in r["mean"]] + ["P", f2b(r["dt"])]
+            toks += ["S"] + [f2b(v) for v in r["mean"]] + ["E", r["epoch"][0], str(r["epoch"][1])] + [str(t) for t in r["target"]]
         reqs.append(" ".join(toks))
         meta.append(("hist", recs, mu, inp))
-        out.count(key=reqs[-1], kind=f"history-{prop}", propagations=len(recs),
-                  modified=sum(1 for st in inp["steps"] if st[0] not in ("P", "Pabs")))
+        out.count(key=reqs[-1], kind=f"{cls}-{prop}", propagations=len(recs), env=env,
+                  modified=sum(1 for st in inp["steps"] if st[0] not in ("P", "Pabs", "Pdate")))
+        for r in recs:
+            out.tally("scales=" + r["epoch"][0] + ">" + (r["target"][1] if r["target"][0] == "D" else "timedelta"))
+            if leap_between(env, inst_us(*r["epoch"], env), inst_us(*r["epoch"], env) + r["span_us"]):
+                out.tally("span=crosses-a-leap-second:" + (r["target"][1] if r["target"][0] == "D" else "timedelta"))
     replies = core.Driver(ID).run(reqs)
     with _quiet():
         for req, (kind, impl, aux, inp), rep in zip(reqs, meta, replies):
@@ -529,13 +944,22 @@ def correspondence(ctx):
                     out.fail("c05-sso", "cos(leo.sso(a, e)) differs from the translated formula", inp, observed=impl, expected=model)
                 continue
             if kind == "hist":
-                fields = [parse_cart(t) for t in rep.split("|")]
-                if len(fields) != len(impl):
-                    out.fail("c05-history-shape", "model returned a different number of propagations", inp, observed=len(impl), expected=len(fields))
+                fields = [t.strip() for t in rep.split("|")] if rep.strip() else []
+                if len(fields) != len(impl) or any(f.startswith("err") for f in fields):
+                    out.fail("c05-history-shape", "model returned a different number of propagations / rejected a date", inp, observed=len(impl), expected=fields[-1:] or rep)
                     continue
-                for idx, (r, mc) in enumerate(zip(impl, fields)):
-                    if mc == "fuel" or not isinstance(mc, list):
-                        out.fail("c05-history-fuel", "the model's M2E loop did not exit", inp, observed=r["impl"], expected=mc)
+                for idx, (r, fld) in enumerate(zip(impl, fields)):
+                    mc = parse_cart(fld.split("@")[0])
+                    info = fld.split("@")[1].split() if "@" in fld else []
+                    if mc == "fuel" or not isinstance(mc, list) or len(info) != 3:
+                        out.fail("c05-history-fuel", "the model's M2E loop did not exit", inp, observed=r["impl"], expected=fld[:80])
+                        break
+                    # the dates: span `result.date - epoch` and the scale the result is stamped with
+                    sE, how = r["epoch"][0], (r["target"][1] if r["target"][0] == "D" else r["epoch"][0])
+                    exact = sE in UNIFORM and how in UNIFORM
+                    if abs(int(info[0]) - r["span_us"]) > (0 if exact else 2) or info[2] != r["stamp"][0]:
+                        out.fail(f"c05-span-{inp['propagator']}", f"propagation #{idx}: the date the result carries (its distance to the epoch, its scale) differs from the "
+                                 "date model", inp, observed=[r["span_us"], r["stamp"][0]], expected=[int(info[0]), info[2]], propagation=idx)
                         break
                     if not finite(r["impl"]) or not finite(mc):
                         if finite(r["impl"]) != finite(mc):
@@ -543,9 +967,13 @@ def correspondence(ctx):
                             break
                         continue
                     n = mean_motion(aux, r["mean"][0])
-                    if cart_differs(r["impl"], mc, 1e-9 * (1 + n * abs(r["dt"]))):
-                        out.fail(f"c05-history-{inp['propagator']}", f"propagation #{idx} of a history on one orbit / one propagator object differs from the model "
-                                 "(the model's setter re-reads the orbit on every call)", inp, observed=r["impl"], expected=mc, propagation=idx)
+                    e = r["mean"][1]
+                    slack = 0.0 if exact else n * 3e-6 * math.sqrt(1 + e) / max(abs(1 - e), 1e-3) ** 1.5
+                    if cart_differs(r["impl"], mc, 1e-9 * (1 + n * abs(r["span_us"]) * 1e-6) + slack):
+                        out.fail(f"c05-history-{inp['propagator']}" + (":dates" if "epoch" in inp or r["target"][0] == "D" else ""),
+                                 f"propagation #{idx} of a history on one orbit / one propagator object differs from the model "
+                                 "(the model's setter re-reads the orbit — elements and epoch — on every call; the span is the difference of the two instants)",
+                                 inp, observed=r["impl"], expected=mc, propagation=idx, model_span_us=int(info[0]))
                         break
                 continue
             # single propagation: `elements | cartesian`
@@ -754,6 +1182,7 @@ def oracle(ctx, widened):
     out = Outcome()
     rng = ctx.rng
     big = widened or ctx.thorough
+    warm_envs()
     # reference values (EGM96 / IAU): the library's constants define "the first-order secular J2 rates"; a drift of the constants themselves is a failure
     for name, val, ref in (("mu", K.Earth.mu, 3.986004418e14), ("r", K.Earth.r, 6378136.3), ("J2", K.Earth.J2, 1.08262668355e-3)):
         out.count(key=("const", name), kind="constants")
@@ -776,7 +1205,14 @@ def oracle(ctx, widened):
             guarded(out, m2e_case, gen_m2e_input(rng))
         # call histories on one Orbit object / one propagator object
         for k in range(2000 if big else 200):
-            guarded(out, history_case, gen_history_input(rng, "Kepler" if k % 3 != 2 else "J2"))
+            guarded(out, history_case, gen_history_input(rng, "Kepler" if k % 3 != 2 else "J2", k))
+        # dates handed in as Date objects: epoch and target in every pair of the six scales, without / with mocked / with the real
+        # Earth-orientation data (spans crossing leap seconds), timedelta arguments, iter(dates=…), iter(start, stop, step)
+        for k in range(108 * (12 if big else 2)):
+            guarded(out, kepler_case, gen_dated(rng, k, gen_kepler_input))
+            guarded(out, j2_case, gen_dated(rng, k, gen_j2_input))
+        for k in range(108 * (4 if big else 1)):
+            guarded(out, api_case, dict(gen_dated(rng, k, gen_kepler_input if k % 2 else gen_j2_input), api=True))
     out.sample({"checks": "kepler: elements constant, M advance, compose, inverse, periodic, universal-variable; j2: a e i constant, secular rates, polar, critical, sso, compose"})
     return out
 
@@ -802,6 +1238,80 @@ PINNED = [
 PINNED_M2E = [{"m2e": True, "e": 0.8199884180444714, "M": -616.6022875435046}, {"m2e": True, "e": 0.8225565521236453, "M": 2143.4044989634876}]
 
 
+
+class Handing:
+    """How the dates of one oracle case are handed to the library: the Earth-orientation environment, the scale and clock reading
+    of the orbit's epoch, and for each propagation call in turn either a timedelta or the scale in which the target `Date` is
+    expressed.  The clock reading of a target is computed from the instant (TAI) with the harness's own offsets (`minus_tai_us`),
+    not by `Date.change_scale`.  A legacy input (no `epoch` / `via`) is the epoch 2020-05-24T03:07:11 UTC without
+    Earth-orientation data and timedelta arguments throughout."""
+
+    def __init__(self, inp):
+        self.env = inp.get("env", "zero")
+        ep = inp.get("epoch")
+        self.epoch = (ep[0], int(ep[1])) if ep else ("UTC", epoch0_us())
+        self.via = list(inp.get("via") or ["td"])
+        self.dated = bool(ep)
+        self.k = 0
+        self.exact = True         # every date handed in so far is a whole number of microseconds away from the epoch's instant
+        self.used = []            # (from scale, how) of every call
+        self.leap = False
+
+    def epoch_date(self):
+        return mkdate(*self.epoch)
+
+    def inst(self, d):
+        sc, us = date_reading(d)
+        return inst_us(sc, us, self.env)
+
+    def arg(self, frm, dt):
+        """(argument for `propagate`, elapsed seconds it denotes) for 'dt seconds after the instant of the real Date `frm`'"""
+        from beyond.dates import timedelta
+        how = self.via[self.k % len(self.via)]
+        self.k += 1
+        sc, us = date_reading(frm)
+        i0 = inst_us(sc, us, self.env)
+        dus = round(dt * 1e6)
+        self.leap = self.leap or leap_between(self.env, i0, i0 + dus)
+        if how == "td":
+            # the property speaks of timedelta arguments in uniform scales: TAI, TT, GPS always, UTC when no leap second intervenes
+            if sc in CONST or (sc == "UTC" and not leap_between(self.env, i0, i0 + dus)):
+                self.used.append((sc, "td"))
+                return timedelta(microseconds=dus), dus / 1e6
+            how = sc
+        us_t = reading_at(how, i0 + dus, self.env)
+        if not date_ok(how, us_t, self.env):
+            how = "TAI"
+            us_t = reading_at(how, i0 + dus, self.env)
+        if how not in UNIFORM or sc not in UNIFORM:
+            self.exact = False
+        self.used.append((sc, how))
+        return mkdate(how, us_t), (inst_us(how, us_t, self.env) - i0) / 1e6
+
+    def slack(self, n, e):
+        """relative state error allowed for dates that are not whole microseconds (UT1, TDB): 3 us at perigee speed"""
+        return 0.0 if self.exact else n * 3e-6 * math.sqrt(1 + e) / abs(1 - e) ** 1.5
+
+    def tag(self):
+        """family suffix computed from how the dates were handed in"""
+        if not self.dated:
+            return ""
+        cross = any(how not in ("td", sc) for sc, how in self.used) or any(sc != self.epoch[0] for sc, _ in self.used)
+        return ":dates-" + ("cross-scale" if cross else "same-scale") + ("-leap-second" if self.leap else "")
+
+    def dist(self):
+        return {"env": self.env, "epoch_scale": self.epoch[0], "first_arg": self.used[0][1] if self.used else "-"} if self.dated else {}
+
+    def check_stamp(self, out, prop, inp, frm, arg, el, res):
+        """the result carries the requested date (the same instant)"""
+        want = self.inst(frm) + el * 1e6
+        got = self.inst(res.date)
+        tol = 1.0 if self.exact else 4.0
+        if abs(got - want) > tol:     # the scale LABEL of the result is not part of the property (C04: only instants matter)
+            out.fail(f"{prop}-result-date" + self.tag(), "the propagated orbit does not carry the requested date", inp,
+                     observed=[str(res.date), got], expected=[str(arg), want])
+
+
 def gen_kepler_input(rng):
     conic = "ell" if rng.random() < 0.55 else "hyp"
     elts = gen_elts(rng, conic)
@@ -813,22 +1323,31 @@ def gen_kepler_input(rng):
 
 def kepler_case(out, inp):
     """every Kepler clause of the property on one fully specified input (also used by replay)"""
-    from beyond.dates import timedelta
+    H = Handing(inp)
+    with eop_env(H.env):
+        _kepler_case(out, inp, H)
+
+
+def _kepler_case(out, inp, H):
     elts, form, frame, dt = inp["mean_elements"], inp["form"], inp["frame"], inp["dt"]
     conic = "ell" if elts[1] < 1 else "hyp"
-    orb, d0 = make(elts, form, frame, "Kepler")
+    orb, d0 = make(elts, form, frame, "Kepler", H.epoch_date())
     mu = float(orb.frame.center.body.mu)
     x0 = mean_of(orb)
     c0 = [float(v) for v in orb.copy(form="cartesian")]
     n = mean_motion(mu, elts[0])
-    res = orb.propagate(timedelta(seconds=dt))
+    arg, dt = H.arg(orb.date, dt)        # from here on `dt` is the elapsed time the argument denotes
+    res = orb.propagate(arg)
     c1 = [float(v) for v in res]
-    out.count(key=("kepler", form, tuple(elts), dt), nontrivial=dt != 0, kind=f"kepler-{conic}", form=form)
+    out.count(key=("kepler", form, tuple(elts), dt, H.epoch, tuple(H.via)), nontrivial=dt != 0, kind=f"kepler-{conic}", form=form, **H.dist())
+    if H.dated:
+        out.tally(f"scales={H.epoch[0]}>{H.used[0][1]}")
     if not finite(c1) or not finite(x0):
         out.fail(nonfinite_family("Kepler", x0, mu, dt), "Kepler.propagate returns a non-finite state inside the property's domain", inp, observed=c1)
         return
     amp = 1 + n * abs(dt)
     e = elts[1]
+    H.check_stamp(out, "kepler", inp, orb.date, arg, dt, res)
     # 1. a, e, i, Ω, ω unchanged, M advanced by n dt (tolerances: 1e-11 relative, amplified by the phase n|dt| and by the
     #    conditioning of the element set near e = 0, e = 1, sin i = 0; observed errors are 1e3..1e6 times smaller)
     x1 = mean_of(res)
@@ -841,45 +1360,126 @@ def kepler_case(out, inp):
     elif angdiff(x1[3], x0[3]) > tol / math.sin(x0[2]): bad = "raan"
     elif angdiff(x1[4], x0[4]) > tol * cond / min(e, 1.0): bad = "argp"
     if bad:
-        out.fail(f"kepler-element-{bad}-{conic}", f"Kepler propagation changes {bad}", inp, observed=x1, expected=x0)
+        out.fail(f"kepler-element-{bad}-{conic}" + H.tag(), f"Kepler propagation changes {bad}", inp, observed=x1, expected=x0)
     Mexp = x0[5] + n * dt
     dM = angdiff(x1[5], Mexp) if conic == "ell" else abs(x1[5] - Mexp)
-    if dM > tol * cond / min(e, 1.0) * max(1.0, abs(Mexp) if conic == "hyp" else 1.0):
-        out.fail(f"kepler-M-advance-{conic}", "mean anomaly does not advance by n dt", inp, observed=x1[5], expected=Mexp)
+    if dM > tol * cond / min(e, 1.0) * max(1.0, abs(Mexp) if conic == "hyp" else 1.0) + (0 if H.exact else n * 3e-6):
+        out.fail(f"kepler-M-advance-{conic}" + H.tag(), "mean anomaly does not advance by n dt (dt = time elapsed between the instants of the epoch "
+                 "and of the requested date)", inp, observed=x1[5], expected=Mexp, elapsed_s=dt, handed=H.used[-1])
     # 2. independent universal-variable solution, forwards and backwards (property: 1e-5; used: 1e-9 + 1e-10 n|dt|, capped at 1e-5)
     ref = universal_kepler(mu, c0[:3], c0[3:], dt)
-    out.count(key=("uv", form, tuple(elts), dt), nontrivial=dt != 0, kind=f"universal-variable-{conic}-{'back' if dt < 0 else 'fwd'}")
-    if not rel_err(c1, ref) <= min(1e-5, 1e-9 + 1e-10 * amp):
-        out.fail(f"kepler-universal-variable-{conic}", "Kepler.propagate differs from the universal-variable two-body solution", inp,
-                 observed=c1, expected=ref)
+    out.count(key=("uv", form, tuple(elts), dt, H.epoch, tuple(H.via)), nontrivial=dt != 0, kind=f"universal-variable-{conic}-{'back' if dt < 0 else 'fwd'}")
+    if not rel_err(c1, ref) <= min(1e-5, 1e-9 + 1e-10 * amp) + H.slack(n, e):
+        out.fail(f"kepler-universal-variable-{conic}" + H.tag(), "Kepler.propagate differs from the universal-variable two-body solution", inp,
+                 observed=c1, expected=ref, elapsed_s=dt)
     # 3. composition and inverse
     t1, t2 = inp["t1"], inp["t2"]
     if abs(t2) <= 30 * DAY and abs(t1) <= 30 * DAY:
-        mid = orb.propagate(timedelta(seconds=t1))
-        two = [float(v) for v in mid.propagate(timedelta(seconds=t2))]
+        a1, t1 = H.arg(orb.date, t1)
+        mid = orb.propagate(a1)
+        H.check_stamp(out, "kepler", inp, orb.date, a1, t1, mid)
+        a2, t2 = H.arg(mid.date, dt - t1 if H.dated else t2)
+        two = [float(v) for v in mid.propagate(a2)]
         amp2 = 1 + n * (abs(t1) + abs(t2))
-        out.count(key=("compose", form, tuple(elts), t1, t2), kind=f"compose-{conic}")
+        out.count(key=("compose", form, tuple(elts), t1, t2, H.epoch, tuple(H.via)), kind=f"compose-{conic}")
         if not finite(two):
             fam = nonfinite_family("Kepler", x0, mu, t1) if not finite(mid) else nonfinite_family("Kepler", mean_of(mid), mu, t2)
             out.fail(fam, "Kepler.propagate returns a non-finite state inside the property's domain (composition leg)", inp, observed=two)
-        elif not rel_err(two, c1) <= 3e-9 * amp2 * cond:
-            out.fail(f"kepler-compose-{conic}", "propagate(t1) then propagate(t2) differs from propagate(t1+t2)", inp, observed=two, expected=c1)
-    back = [float(v) for v in res.propagate(timedelta(seconds=-dt))]
-    out.count(key=("inverse", form, tuple(elts), dt), nontrivial=dt != 0, kind=f"inverse-{conic}")
+        elif not rel_err(two, c1) <= 3e-9 * amp2 * cond + 2 * H.slack(n, e):
+            out.fail(f"kepler-compose-{conic}" + H.tag(), "propagate(t1) then propagate(t2) differs from propagate(t1+t2)", inp, observed=two, expected=c1,
+                     handed=H.used[-3:])
+    ab, tb = H.arg(res.date, -dt)
+    back = [float(v) for v in res.propagate(ab)]
+    out.count(key=("inverse", form, tuple(elts), dt, H.epoch, tuple(H.via)), nontrivial=dt != 0, kind=f"inverse-{conic}")
     if not finite(back):
         out.fail(nonfinite_family("Kepler", x1, mu, -dt), "Kepler.propagate returns a non-finite state inside the property's domain (way back)", inp, observed=back)
-    elif not rel_err(back, c0) <= 3e-9 * amp * cond:
-        out.fail(f"kepler-inverse-{conic}", "propagate(-t) after propagate(t) does not return to the initial state", inp, observed=back, expected=c0)
+    elif not rel_err(back, c0) <= 3e-9 * amp * cond + 2 * H.slack(n, e):
+        out.fail(f"kepler-inverse-{conic}" + H.tag(), "propagate(-t) after propagate(t) does not return to the initial state", inp, observed=back, expected=c0)
     # 4. periodicity of bound orbits
     if conic == "ell":
         period = orb.infos.period
         kk = inp["periods"]
         if abs(period.total_seconds() * kk) <= 30 * DAY:
-            per = [float(v) for v in orb.propagate(period * kk)]
-            out.count(key=("periodic", form, tuple(elts), kk), kind="periodic")
+            ap, tp = H.arg(orb.date, (period * kk).total_seconds())
+            per = [float(v) for v in orb.propagate(ap)]
+            out.count(key=("periodic", form, tuple(elts), kk, H.epoch, tuple(H.via)), kind="periodic")
             # the period is rounded to the microsecond by timedelta: allow the motion during k µs at perigee speed
-            if not rel_err(per, c0) <= 3e-9 * (1 + TWO_PI * abs(kk)) * cond + abs(kk) * 1e-6 * n * 10 / (1 - e) ** 2:
-                out.fail("kepler-periodic", f"state after {kk} period(s) differs from the initial state", inp, observed=per, expected=c0)
+            if not rel_err(per, c0) <= 3e-9 * (1 + TWO_PI * abs(kk)) * cond + abs(kk) * 1e-6 * n * 10 / (1 - e) ** 2 + H.slack(n, e):
+                out.fail("kepler-periodic" + H.tag(), f"state after {kk} period(s) differs from the initial state", inp, observed=per, expected=c0)
+
+
+
+def gen_dated(rng, k, base):
+    """a Kepler / J2 input whose dates are handed in as `Date`s: the Earth-orientation environment, the scale of the epoch and the
+    scale of the first target run through all 3 x 6 x 6 combinations with `k`; the later calls (composition legs, way back, period)
+    draw their scale — or a timedelta — at random.  Every seventh case hands the first target in as a timedelta."""
+    inp = base(rng)
+    env = ENVS[k % 3]
+    pair = (k // 3) % 36
+    sE, sT = SCALES[pair // 6], SCALES[pair % 6]
+    first = "td" if k % 7 == 3 else sT
+    inp.update(env=env, epoch=[sE, gen_epoch(rng, sE, env, inp["dt"])], via=[first] + [rng.choice(SCALES + ["td"]) for _ in range(4)])
+    return inp
+
+
+def api_case(out, inp):
+    """the other public ways to a propagation — `iter(dates=…)` with dates in mixed scales, `iter(start, stop, step)` /
+    `ephemeris` with a start date in another scale, `datetime` arguments — give what `propagate` gives for the same instant"""
+    H = Handing(inp)
+    with eop_env(H.env):
+        import datetime as _dt
+        from beyond.dates import timedelta
+        prop, elts, e = inp["propagator"], list(inp["mean_elements"]), inp["mean_elements"][1]
+        if elts[2] is None:
+            from beyond.utils.leo import sso
+            elts[2] = float(sso(a=elts[0], e=elts[1]))
+        orb, _ = make(elts, inp["form"], inp["frame"], prop, H.epoch_date())
+        n = mean_motion(float(orb.frame.center.body.mu), elts[0])
+        cond = 1 / min(e, abs(e - 1), 1.0)
+        spans = [inp["dt"], inp["t1"], 0.0, -inp["t1"]]
+        args = [H.arg(orb.date, t) for t in spans]
+        dates = [a for a, _ in args if not hasattr(a, "total_seconds")]
+        els = [t for a, t in args if not hasattr(a, "total_seconds")]
+        got = [[float(v) for v in o] for o in orb.iter(dates=dates)]
+        out.count(key=("iter-dates", prop, tuple(elts), H.epoch, tuple(H.via)), kind=f"{prop.lower()}-iter-dates", **H.dist())
+        for d, t, g in zip(dates, els, got):
+            # the same instant, handed to propagate() as a date in the EPOCH's scale (or TAI), computed by the harness
+            sc = H.epoch[0] if date_ok(H.epoch[0], reading_at(H.epoch[0], H.inst(d), H.env), H.env) else "TAI"
+            ref = [float(v) for v in orb.propagate(mkdate(sc, reading_at(sc, H.inst(d), H.env)))]
+            if not finite(g) or not finite(ref):
+                continue
+            if rel_err(g, ref) > 1e-11 * (1 + n * abs(t)) * cond + 2 * (n * 3e-6 * math.sqrt(1 + e) / abs(1 - e) ** 1.5 if not (d.scale.name in UNIFORM and sc in UNIFORM) else 0):
+                out.fail(f"{prop.lower()}-iter-dates" + H.tag(), "iter(dates=…) gives for a date in one scale another state than propagate() to the same instant "
+                         "given in the epoch's scale", inp, observed=g, expected=ref, date=str(d))
+        # iter(start, stop, step): start in another scale than the epoch, stop as a timedelta
+        step = timedelta(seconds=q(abs(inp["t1"]) / 3))
+        if dates and abs(inp["t1"]) > 1 and (dates[0].scale.name in CONST or (dates[0].scale.name == "UTC" and not
+                                                 leap_between(H.env, H.inst(dates[0]), H.inst(dates[0]) + 3e6 * step.total_seconds()))):
+            pts = list(orb.iter(start=dates[0], stop=step * 3, step=step))
+            out.count(key=("iter-range", prop, tuple(elts), H.epoch, tuple(H.via)), kind=f"{prop.lower()}-iter-range")
+            for j, o in enumerate(pts):
+                t = els[0] + j * step.total_seconds()
+                a, tt = H.arg(orb.date, t)
+                ref = [float(v) for v in orb.propagate(a)]
+                g = [float(v) for v in o]
+                if finite(g) and finite(ref) and rel_err(g, ref) > 1e-11 * (1 + n * abs(t)) * cond + 3 * H.slack(n, e):
+                    out.fail(f"{prop.lower()}-iter-range" + H.tag(), f"point #{j} of iter(start=<date in another scale>, stop, step) differs from propagate() to that instant",
+                             inp, observed=g, expected=ref)
+                    break
+        # a naive datetime is not a Date: it must be refused, or mean the default scale (UTC)
+        sc, us = H.epoch
+        naive = D3().dt_of(reading_at("UTC", inst_us(sc, us, H.env) + round(inp["dt"] * 1e6), H.env))
+        out.count(key=("datetime-arg", prop, tuple(elts), H.epoch), kind="datetime-argument")
+        try:
+            r = orb.propagate(naive)
+        except (TypeError, AttributeError) as ex:
+            out.tally("datetime-argument=" + type(ex).__name__)
+        else:
+            out.tally("datetime-argument=accepted")
+            from beyond.dates import Date
+            ref = [float(v) for v in orb.propagate(Date(naive))]
+            if finite(ref) and rel_err([float(v) for v in r], ref) > 1e-11 * (1 + n * abs(inp["dt"])) * cond:
+                out.fail(f"{prop.lower()}-datetime-argument", "propagate(datetime) differs from propagate(Date(datetime))", inp, observed=[float(v) for v in r], expected=ref)
 
 
 def gen_m2e_input(rng):
@@ -916,7 +1516,8 @@ def m2e_case(out, inp):
 def history_case(out, inp):
     """propagating an orbit object that was propagated before and modified in place gives what a fresh orbit with the same
     coordinates gives (the propagation starts from the CURRENT state), and the result carries the requested date"""
-    recs = run_history(inp)
+    with eop_env(inp.get("env", "zero")):
+        recs = run_history(inp)
     prop = inp["propagator"]
     for idx, r in enumerate(recs):
         out.count(key=("history", prop, str(inp["steps"]), idx, tuple(inp["mean_elements"])), kind=f"history-{prop}", after_change=r["after_change"])
@@ -966,37 +1567,49 @@ def gen_j2_input(rng):
 
 def j2_case(out, inp):
     """every J2 clause of the property on one fully specified input (also used by replay)"""
-    from beyond.dates import timedelta
+    H = Handing(inp)
+    with eop_env(H.env):
+        _j2_case(out, inp, H)
+
+
+def _j2_case(out, inp, H):
     from beyond.utils.leo import sso
     elts, form, frame, dt, special = list(inp["mean_elements"]), inp["form"], inp["frame"], inp["dt"], inp.get("special")
     if special == "sso":
         elts[2] = float(sso(a=elts[0], e=elts[1]))
         inp = dict(inp, mean_elements=elts)
-    orb, d0 = make(elts, form, frame, "J2")
+    orb, d0 = make(elts, form, frame, "J2", H.epoch_date())
     mu = float(orb.frame.center.body.mu)
     x0 = mean_of(orb)
-    res = orb.propagate(timedelta(seconds=dt))
+    arg, dt = H.arg(orb.date, dt)        # from here on `dt` is the elapsed time the argument denotes
+    res = orb.propagate(arg)
     c1 = [float(v) for v in res]
-    out.count(key=("j2", form, tuple(elts), dt), nontrivial=dt != 0, kind=f"j2-{special or 'generic'}", form=form)
+    out.count(key=("j2", form, tuple(elts), dt, H.epoch, tuple(H.via)), nontrivial=dt != 0, kind=f"j2-{special or 'generic'}", form=form, **H.dist())
+    if H.dated:
+        out.tally(f"scales={H.epoch[0]}>{H.used[0][1]}")
     if not finite(c1) or not finite(x0):
         out.fail(nonfinite_family("J2", x0, mu, dt), "J2.propagate returns a non-finite state inside the property's domain", inp, observed=c1)
         return
+    H.check_stamp(out, "j2", inp, orb.date, arg, dt, res)
     a, e, i = elts[:3]
     n = mean_motion(mu, a)
     amp = 1 + n * abs(dt)
     cond = 1 / min(e, 1 - e)
     tol = 1e-11 * amp
+    sl = 0 if H.exact else n * 3e-6
     x1 = mean_of(res)
     rO, rw, rM = j2_rates(mu, a, e, i)
     bad = None
     if abs(x1[0] / x0[0] - 1) > tol * cond: bad = ("a", x1[0], x0[0])
     elif abs(x1[1] - x0[1]) > tol * cond: bad = ("e", x1[1], x0[1])
     elif abs(x1[2] - x0[2]) > tol / math.sin(i): bad = ("i", x1[2], x0[2])
-    elif angdiff(x1[3], x0[3] + rO * dt) > tol / math.sin(i): bad = ("raan-rate", x1[3], (x0[3] + rO * dt) % TWO_PI)
-    elif angdiff(x1[4], x0[4] + rw * dt) > tol * cond / e: bad = ("argp-rate", x1[4], (x0[4] + rw * dt) % TWO_PI)
-    elif angdiff(x1[5], x0[5] + rM * dt) > tol * cond / e: bad = ("M-rate", x1[5], (x0[5] + rM * dt) % TWO_PI)
+    elif angdiff(x1[3], x0[3] + rO * dt) > tol / math.sin(i) + sl: bad = ("raan-rate", x1[3], (x0[3] + rO * dt) % TWO_PI)
+    elif angdiff(x1[4], x0[4] + rw * dt) > tol * cond / e + sl: bad = ("argp-rate", x1[4], (x0[4] + rw * dt) % TWO_PI)
+    elif angdiff(x1[5], x0[5] + rM * dt) > tol * cond / e + sl: bad = ("M-rate", x1[5], (x0[5] + rM * dt) % TWO_PI)
     if bad:
-        out.fail(f"j2-{bad[0]}", f"J2 propagation: {bad[0]} is not constant / does not drift at the first-order secular rate", inp, observed=bad[1], expected=bad[2])
+        out.fail(f"j2-{bad[0]}" + H.tag(), f"J2 propagation: {bad[0]} is not constant / does not drift at the first-order secular rate "
+                 "(over the time elapsed between the instants of the epoch and of the requested date)", inp, observed=bad[1], expected=bad[2],
+                 elapsed_s=dt, handed=H.used[-1])
     if special == "polar" and angdiff(x1[3], x0[3]) > tol:
         out.fail("j2-polar-node-drift", "node drifts on a polar orbit", inp, observed=x1[3], expected=x0[3])
     if special == "critical" and angdiff(x1[4], x0[4]) > tol * cond / e + 1e-12 * n * abs(dt):
@@ -1004,14 +1617,25 @@ def j2_case(out, inp):
     if special == "sso":
         we = TWO_PI / 365.256363004 / 86400
         out.count(key=("sso", a, e), kind="sso-node-rate")
-        if angdiff(x1[3], x0[3] + we * dt) > tol / math.sin(i) + 1e-9 * we * abs(dt):
-            out.fail("j2-sso-node-rate", "node of the orbit returned by leo.sso does not follow the mean Sun under J2", inp, observed=x1[3], expected=(x0[3] + we * dt) % TWO_PI)
+        if angdiff(x1[3], x0[3] + we * dt) > tol / math.sin(i) + 1e-9 * we * abs(dt) + sl:
+            out.fail("j2-sso-node-rate" + H.tag(), "node of the orbit returned by leo.sso does not follow the mean Sun under J2", inp, observed=x1[3], expected=(x0[3] + we * dt) % TWO_PI)
     # composition (cartesian level)
     t1, t2 = inp["t1"], inp["t2"]
-    two = [float(v) for v in orb.propagate(timedelta(seconds=t1)).propagate(timedelta(seconds=t2))]
-    out.count(key=("j2-compose", form, tuple(elts), t1, t2), kind="j2-compose")
-    if not finite(two) or not rel_err(two, c1) <= 3e-9 * (1 + n * (abs(t1) + abs(t2))) * cond:
-        out.fail("j2-compose", "J2: propagate(t1) then propagate(t2) differs from propagate(t1+t2)", inp, observed=two, expected=c1)
+    a1, t1 = H.arg(orb.date, t1)
+    mid = orb.propagate(a1)
+    H.check_stamp(out, "j2", inp, orb.date, a1, t1, mid)
+    a2, t2 = H.arg(mid.date, dt - t1 if H.dated else t2)
+    two = [float(v) for v in mid.propagate(a2)]
+    out.count(key=("j2-compose", form, tuple(elts), t1, t2, H.epoch, tuple(H.via)), kind="j2-compose")
+    if not finite(two) or not rel_err(two, c1) <= 3e-9 * (1 + n * (abs(t1) + abs(t2))) * cond + 2 * H.slack(n, e):
+        out.fail("j2-compose" + H.tag(), "J2: propagate(t1) then propagate(t2) differs from propagate(t1+t2)", inp, observed=two, expected=c1, handed=H.used[-3:])
+    # inverse: back to the instant of the epoch, handed in yet another way
+    ab, tb = H.arg(res.date, -dt)
+    back = [float(v) for v in res.propagate(ab)]
+    c0 = [float(v) for v in orb.copy(form="cartesian")]
+    out.count(key=("j2-inverse", form, tuple(elts), dt, H.epoch, tuple(H.via)), nontrivial=dt != 0, kind="j2-inverse")
+    if not finite(back) or not rel_err(back, c0) <= 3e-9 * amp * cond + 2 * H.slack(n, e):
+        out.fail("j2-inverse" + H.tag(), "J2: propagate(-t) after propagate(t) does not return to the initial state", inp, observed=back, expected=c0)
 
 
 def replay(f):
@@ -1024,9 +1648,12 @@ def replay(f):
         return out
     if not isinstance(inp, dict) or "mean_elements" not in inp:
         return oracle(core.Ctx(ID, "quick", 0), False)
+    warm_envs()
     with _quiet():
         if "steps" in inp:
             guarded(out, history_case, dict(inp, steps=[tuple(st) for st in inp["steps"]]))
+        elif inp.get("api"):
+            guarded(out, api_case, inp)
         else:
             guarded(out, kepler_case if inp["propagator"] == "Kepler" else j2_case, inp)
     return out
